@@ -4,15 +4,15 @@ package vh
 
 import (
 	"crypto/sha256"
-	"errors"
-	"strings"
 	"encoding/hex"
 	"encoding/json"
+	"errors"
 	"fmt"
 	"os"
 	"path/filepath"
 	"sort"
 	"strconv"
+	"strings"
 	"sync"
 	"testing"
 	"time"
